@@ -15,15 +15,15 @@ pkgname=$(grep -m1 '^package ' $MD/zz_seed_test.go | awk '{print $2}')
 case $pkgname in dastard) pdir=. ;; *) pdir=$pkgname ;; esac
 git -C /repo worktree add -q --detach $WT HEAD || exit 9
 cd $WT
-git apply $OUT/patch.diff || { echo "PATCH DOES NOT APPLY"; git -C /repo worktree remove --force $WT; exit 8; }
+(git apply $OUT/patch.diff 2>/dev/null || git apply --3way $OUT/patch.diff) || { echo "PATCH DOES NOT APPLY"; git -C /repo worktree remove --force $WT; exit 8; }
 build=ok; go build ./... >/dev/null 2>&1 || build=FAIL
-suite=$(go test -vet=off -count=1 ./... 2>&1 | grep -- '^--- FAIL' | grep -v 'TestWritingFiles\|TestWriteControl' | tr '\n' ' ')
+suite=$(go test -vet=off -count=1 ./... 2>&1 | grep -oE -- '--- FAIL: [A-Za-z0-9_]+' | grep -v 'TestWritingFiles\|TestWriteControl' | tr '\n' ' ')
 cp $OUT/zz_seed_test.go $pdir/zz_seed_test.go
 demo_with=$(go test ${SEED_TESTFLAGS:-} -tags verif -vet=off -count=1 -run "TestSeeded" ./$pdir 2>&1 | tail -1 | awk '{print $1}')
-git checkout -q -- . ; 
+git reset -q --hard; 
 demo_without=$(go test ${SEED_TESTFLAGS:-} -tags verif -vet=off -count=1 -run "TestSeeded" ./$pdir 2>&1 | tail -1 | awk '{print $1}')
 # now our check, against the scratch worktree with the patch applied (never /repo itself)
-git apply $OUT/patch.diff
+git apply $OUT/patch.diff 2>/dev/null || git apply --3way $OUT/patch.diff
 cd /verif; t0=$(date +%s)
 mkdir -p /tmp/seed_scratch_$NAME
 VERIF_SCRATCH=/tmp/seed_scratch_$NAME timeout 1500 bin/gosym check $PROP quick --repo $WT > $OUT/check_output.txt 2>&1; rc=$?
